@@ -14,8 +14,9 @@ META = {
     "text": "TLC enumerates documents of <= 4 objects in which every key a walker reads is bound to a value of every kind class "
             "(null, bool, int -/0/+/huge, real, name expected/other, string, empty/short array, array of refs, dict, stream, ref to "
             "each object incl. self, dangling ref) and checks, per walker model transcribed from the code, that it reaches a final "
-            "state within its variant, terminates (liveness) and never evaluates a partial operation; run 'as the code is' the "
-            "model yields exactly the known counter-example classes, 'as repaired' none. Every enumerated document plus seeded "
+            "state within its variant, terminates (liveness) and never evaluates a partial operation; run 'as the code is' "
+            "(all nine confirmed deviations are repaired by fix: commits, every Dev_ switch off) the model yields no "
+            "counter-example, with the repaired defects seeded back it violates totality (negative control). Every enumerated document plus seeded "
             "random chaos documents (<= 12 objects) is replayed into lopdf: all public read-only queries run in a child worker "
             "(panic, abort, stack overflow, hang are recorded per call) and the outcome must be a value or an error.",
     "note": "Oracle = absence of panic / abort / stack overflow / time-out, observed from outside the worker process. Exhaustive "
@@ -29,11 +30,11 @@ META = {
 
 ACTIONS = ["StepDeref", "StepCont", "StepRsrc", "StepNd", "StepOut", "StepToc", "StepImg", "StepPg"]
 
-# the classes the model produces "as the code is" (one Dev_ switch each); a missing one means the model went blind
-MODEL_CLASSES = {
-    "outline.next.cycle", "outline.first.cycle", "outline.dest.short", "nameddest.kids.cycle", "nameddest.D.absent",
-    "nameddest.key.notstring", "nameddest.val.short", "images.colorspace.empty", "pages.count.huge",
-}
+# the classes the model produces "as the code is" (one Dev_ switch each that is still TRUE in the *_asis cfgs and in
+# Trace_Queries.cfg); a missing one means the model went blind, an extra one that a switch is stale.  Empty since all
+# nine deviations (outline.next.cycle, outline.first.cycle, outline.dest.short, nameddest.kids.cycle, nameddest.D.absent,
+# nameddest.key.notstring, nameddest.val.short, images.colorspace.empty, pages.count.huge) are repaired in lopdf.
+MODEL_CLASSES = set()
 
 
 def dkey(doc):
@@ -153,12 +154,16 @@ def run(tier):
                 raise vlib.ToolError("MC run %s emitted no behaviours" % cfg)
             cases += cs
         elif kind == "cex":
+            # negative control of TotalInv: the nine repaired defects seeded back into the model (all Dev_ switches on)
             if r.violation != "TotalInv":
-                raise vlib.ToolError("the model 'as the code is' no longer violates TotalInv (got %s): Dev_ switches stale?" % r.violation)
+                raise vlib.ToolError("the model with the repaired defects seeded back does not violate TotalInv (got %s)" % r.violation)
     mc_classes = collections.Counter(c["cls"] for c in cases if c["pc"] not in ("ok", "err"))
     missing = MODEL_CLASSES - set(mc_classes)
     if missing:
         raise vlib.ToolError("vacuous: the model 'as the code is' produced no counter-example of class %s" % sorted(missing))
+    extra = set(mc_classes) - MODEL_CLASSES
+    if extra:
+        raise vlib.ToolError("the model 'as the code is' produced counter-examples of unexpected class %s" % sorted(extra))
     chk.extra.update({"mc_states": states, "mc_transitions": transitions, "mc_walker_runs": len(cases),
                       "mc_counterexample_classes_as_is": dict(sorted(mc_classes.items())),
                       "mc_counterexamples_as_repaired": 0,
@@ -191,8 +196,11 @@ def run(tier):
     rrecs = [{"doc": d["doc"]} for d in rdocs]
     rpreds = [[(b["pc"], b["cls"], "random") for b in v["pbad"]] for v in pre]
     nskip_r = select(rrecs, rpreds, {"hang": 1 if quick else 4, "overflow": 6 if quick else 40}, rng)
-    if not any(rpreds):
-        raise vlib.ToolError("vacuous random set: the model predicts no failing document")
+    # anti-vacuity: the random set contains documents of the classes the (now repaired) defects failed on
+    rwas = collections.Counter(b["cls"] for v in pre for b in v["pwas"])
+    if len(rwas) < 3:
+        raise vlib.ToolError("vacuous random set: documents of only %d formerly failing classes" % len(rwas))
+    chk.extra["random_documents_calls_of_formerly_failing_classes"] = dict(sorted(rwas.items()))
 
     allrecs = mrecs + rrecs
     cin, cout = os.path.join(w, "run.ndjson"), os.path.join(w, "run.out.ndjson")
